@@ -10,6 +10,7 @@ use crate::dispatch_cfg;
 use crate::models::{to_u128, Cfg, Letter};
 use crate::report::{Report, Tier};
 use crate::walk::{merge_accs, range_is_inverted, range_walk, Acc, RangeNode};
+use constriction::backends::Cursor;
 use constriction::stream::queue::{RangeDecoder, RangeEncoder};
 use serde_json::json;
 
@@ -54,6 +55,13 @@ pub fn check_node<C: Cfg>(enc: &RangeEncoder<C::W, C::S>, hist: &[Letter], sfx: 
         let prefix: Vec<C::W> = vec![C::w(0x5a), C::w(0), C::w(1)];
         let mut e = RangeEncoder::<C::W, C::S, Vec<C::W>>::with_backend(prefix.clone());
         let mut ok = true;
+        // (also BEFORE the first symbol: nothing of this encoder is on the sink yet)
+        let before: Vec<C::W> = e.get_compressed().to_vec();
+        let _ = e.decoder();
+        if to_u128(&before) != to_u128(&prefix) {
+            out.push(("RangeEncoder::with_backend | a view taken before the first symbol does not show exactly the data already on the sink".to_string(),
+                format!("{}: sink {:x?}, view {:x?}", C::NAME, to_u128(&prefix), to_u128(&before))));
+        }
         for &l in hist {
             if C::range_encode(&mut e, l).is_err() { ok = false; break; }
             let _ = e.get_compressed().len();
@@ -65,6 +73,19 @@ pub fn check_node<C: Cfg>(enc: &RangeEncoder<C::W, C::S>, hist: &[Letter], sfx: 
             if to_u128(&all) != to_u128(&expect) {
                 out.push(("RangeEncoder::with_backend | data already on the sink (or the message behind it) is damaged when the encoder is inspected between symbols".to_string(),
                     format!("{}: history {:?}: sink holds {:x?}, expected {:x?}", C::NAME, hist, to_u128(&all), to_u128(&expect))));
+            }
+        }
+    }
+    // sealing onto a BOUNDED sink of every capacity around what is needed: an error, or exactly the words of the
+    // unbounded encoder (words that were silently cut short no longer identify the message on their own)
+    for cap in sealed.len().saturating_sub(2)..=sealed.len() + 1 {
+        let mut e = RangeEncoder::<C::W, C::S, Cursor<C::W, Vec<C::W>>>::with_backend(Cursor::new_at_write_beginning(vec![C::w(0); cap]));
+        if hist.iter().any(|&l| C::range_encode(&mut e, l).is_err()) { continue; }
+        if let Ok(cursor) = e.into_compressed() {
+            let (buf, pos) = cursor.into_buf_and_pos();
+            if to_u128(&buf[..pos]) != to_u128(&sealed) {
+                out.push(("RangeEncoder::into_compressed on a bounded sink | succeeds with words that are not the sealed message".to_string(),
+                    format!("{}: history {:?}, capacity {cap}: {:x?} instead of {:x?}", C::NAME, hist, to_u128(&buf[..pos]), to_u128(&sealed))));
             }
         }
     }
@@ -90,6 +111,7 @@ pub fn check_node<C: Cfg>(enc: &RangeEncoder<C::W, C::S>, hist: &[Letter], sfx: 
     }
     // back to back: second message = the history reversed, encoded on a sink holding the first
     let mut e2 = RangeEncoder::<C::W, C::S, Vec<C::W>>::with_backend(sealed.clone());
+    let _ = e2.get_compressed().len(); // (a look at the sink before the second message starts)
     for &l in hist.iter().rev() {
         C::range_encode(&mut e2, l).unwrap();
     }
